@@ -266,6 +266,7 @@ def check_c01(model, rep, tier):
         r_schema(model, rep, q, FLOORS[q])
         r_fields(model, rep, q)
     r_composite(model, rep, "composeinfo.ComposeInfo", ["header", "compose", "release", "base_product", "variants"])
+    r_doc_sections(model, rep, [q for q in sorted(DOC_SECTIONS) if q.startswith(("common.", "composeinfo."))])
     r_variant_tree(model, rep)
     r_uid_format(model, rep)
     r_paths(model, rep)
@@ -784,6 +785,64 @@ def r_ti_variant_tree(model, rep):
                                    "read back is not the value written" % (extra[0].lineno, T.show(extra[0].target or extra[0].value)[:80]))
 
 
+DOC_SECTIONS = {
+    "common.Header": "header", "composeinfo.Compose": "compose", "composeinfo.BaseProduct": "base_product",
+    "composeinfo.Release": "release", "composeinfo.Variants": "variants", "treeinfo.BaseProduct": "base_product",
+    "treeinfo.Release": "release", "treeinfo.Tree": "tree", "treeinfo.Stage2": "stage2", "treeinfo.Checksums": "checksums",
+    "treeinfo.Media": "media", "treeinfo.General": "general",
+}
+
+
+def r_doc_sections(model, rep, classes):
+    """the section / top-level key a section object reads and writes is the documented one (a subclass that forgets to set its
+    own inherits its parent's: Release would then share base_product's section)"""
+    for q in classes:
+        cls = model.cls(q)
+        ia = cls.init_attrs(model).get("_section")
+        try:
+            v = model.fold(ia.value, ia.cls.module) if ia is not None and ia.value is not None else None
+        except NotConst:
+            v = None
+        ok = v == DOC_SECTIONS[q]
+        rep.ob("R-SCHEMA", "%s:section-name" % q, ok, site="%s" % cls.module.rel(),
+               msg="" if ok else "%s reads and writes section %r, documented: %r" % (q, v, DOC_SECTIONS[q]))
+
+
+def r_option_lookup(model, rep, rule_id="R-LEGACY-MAP"):
+    """SortedConfigParser.option_lookup (the legacy readers' 'first place that has it' helper): the value of the first
+    (section, option) pair that exists, else the default"""
+    f = model.own_method("common.SortedConfigParser", "option_lookup")
+    cx = facts.fctx(model, f)
+    S = P(cx.selfname)
+    lst, dflt = P(cx.params[1]), P(cx.params[2])
+    rets = [ev for ev in cx.events if ev.kind == "return"]
+    inl = [r for r in rets if r.loops]
+    out = [r for r in rets if not r.loops]
+    ok = len(inl) == 1 and len(out) == 1 and not cx.ex.falls_through
+    if ok:
+        r = inl[0]
+        it = r.loops[-1][1]
+        el = ("elem", it, r.loops[-1][0])
+        sec, opt = ("idx", el, 0), ("idx", el, 1)
+        has = ("call", ("attr", S, "has_option"), (sec, opt), ())
+        ok = it == lst and r.value == ("call", ("attr", S, "get"), (sec, opt), ()) \
+            and [(g[0], g[1]) for g in r.guards if g[0][0] != "exc"] == [(has, True)] \
+            and out[0].value == dflt and not [g for g in facts.own_guards(cx, out[0]) if g[0][0] != "exc"]
+    else:
+        # first-match spelling: next((self.get(s, o) for s, o in pairs if self.has_option(s, o)), default)
+        ok = len(rets) == 1 and rets[0].value[0] == "call" and rets[0].value[1] == ("global", "next") and len(rets[0].value[2]) == 2 \
+            and rets[0].value[2][1] == dflt and rets[0].value[2][0][0] == "comp" and len(rets[0].value[2][0][3]) == 1
+        if ok:
+            comp = rets[0].value[2][0]
+            var = ("bound", comp[3][0][0][1])
+            sec, opt = ("idx", var, 0), ("idx", var, 1)
+            ok = comp[3][0][1] == lst and comp[2] == ("call", ("attr", S, "get"), (sec, opt), ()) \
+                and tuple(comp[3][0][2]) == (("call", ("attr", S, "has_option"), (sec, opt), ()),)
+    rep.ob(rule_id, "SortedConfigParser.option_lookup", ok, site=cx.site(f.node),
+           msg="" if ok else "option_lookup must return self.get(section, option) for the first listed pair for which "
+                             "self.has_option(section, option) holds, else the default")
+
+
 def r_parser_symmetry(model, rep):
     f = model.own_method("treeinfo.TreeInfo", "_get_parser")
     cx = facts.fctx(model, f)
@@ -1012,6 +1071,7 @@ def check_c04(model, rep, tier):
     r_checksums_schema(model, rep)
     r_cks_reader(model, rep, rule_id="R-CKS-FORMAT", format_only=True)
     r_parser_symmetry(model, rep)
+    r_doc_sections(model, rep, [q for q in sorted(DOC_SECTIONS) if q.startswith(("common.", "treeinfo."))])
     r_discinfo_pos(model, rep)
     rep.floor("R-SCHEMA", 50)
 
@@ -1278,6 +1338,8 @@ def check_c05(model, rep, tier):
     r_hdr_current(model, rep)
     r_setcur(model, rep)
     r_legacy_map(model, rep)
+    r_option_lookup(model, rep)
+    r_doc_sections(model, rep, sorted(DOC_SECTIONS))
     r_fix_path_identity(model, rep, relative_clause=True)
     r_upgrade_reloadable(model, rep)
     from .sources import r_src_route
